@@ -26,6 +26,9 @@ CHECKS = {
     "C17": dict(level=MC, design="5/C17", technique="TLA+ spec of stream handles and point provenance (PickEmbed) model-checked with TLC; behaviours replayed on all groups with scripted adversarial streams; RFC 9380 vectors as fixed behaviours",
                 text="The spec makes a stream's state its whole past, so two handles with equal pasts must yield Equal points; TLC enumerates all 2-step (simulated 6-step) sequences of NewStream/CopyStream/Pick/Embed/Hash/Codec and predicts for each produced point its relation to the other register and the bytes Data must return; the replayer checks q*P=O, determinism, losslessness (also after encode/decode), distinctness, Data range errors, and the RFC 9380 vectors on every implementation.",
                 note="trusted: TLC, canonical route for q*P, blake2xb XOF as stream source, RFC vector files copied from circl testdata and the RFC appendix; collisions assumed negligible"),
+    "C18": dict(level=MC, design="5/C18", technique="TLC-generated KyberAlgebra programs executed on every implementation of each group family and on three build variants; encodings / transcripts compared step by step and against math/big reference curves",
+                text="One program file generated by TLC from the KyberAlgebra spec is the shared input of every implementation: members of a family run it with the same binding and atoms and must produce identical encodings after every step, equal to an independent arbitrary-precision model where one exists; the BLS12-381 back-ends must also agree on hash-to-curve, pairings and BLS signatures; the transcript binary built with tags default/generic/constantTime must print identical lines on common sections.",
+                note="trusted: TLC, math/big reference curves (Edwards25519, P-256, BN G1), crypto/ed25519; programs are sampled from the exhaustive set in the quick tier"),
 }
 
 NOT_YET = {
